@@ -320,8 +320,14 @@ pub fn install_quiet_panic_hook() {
                 let path = format!("{dir}/replays/{prop}/abort.json");
                 let (cj, key) = case.unwrap_or(("{\"kind\": \"abort\"}".to_string(), "(no case recorded)".to_string()));
                 let esc = |s: &str| s.replace('\\', "\\\\").replace('"', "\\\"").replace('\n', " ");
-                let _ = std::fs::write(&path, format!("{{\"property\": \"{prop}\", \"kind\": \"process-abort\", \"key\": \"{}\", \"case\": {cj}, \"detail\": \"{}\"}}", esc(&key), esc(&format!("{msg} @ {loc}"))));
+                if tier != "replay" {
+                    let _ = std::fs::write(&path, format!("{{\"property\": \"{prop}\", \"kind\": \"process-abort\", \"key\": \"{}\", \"case\": {cj}, \"detail\": \"{}\"}}", esc(&key), esc(&format!("{msg} @ {loc}"))));
+                }
                 let ev = format!("{{\"property_id\": \"{prop}\", \"tier\": \"{tier}\", \"seed\": 0, \"level\": \"model_checking\", \"coverage\": {{\"states\": 1, \"transitions\": 1, \"traces_validated_against_impl\": 0, \"samples\": [\"{}\"], \"explanation\": \"the run ended early: the code under test aborted the process (non-unwinding panic) while exploring the sample above\"}}, \"wall_s\": 0.0, \"violations\": 1}}", esc(&key));
+                if tier == "replay" {
+                    println!("replay: VIOLATION [process-abort] {msg} @ {loc}");
+                    std::process::exit(1);
+                }
                 let _ = std::fs::write(format!("{dir}/evidence/{prop}.json"), ev);
                 println!("VIOLATION property={prop} replay={path}");
                 eprintln!("  violation [process-abort] {key} :: {msg} @ {loc}");
